@@ -2,12 +2,11 @@ SPECIFICATION Spec
 CONSTANTS
   Kinds = {"lin", "qlin", "aln", "qaln", "multi", "qmulti"}
   MaxRows = 2
-  MaxCols = 2
+  MaxCols = 1
   MaxOff = 1
   MaxEdits = 2
   MirrorAboutSpan = TRUE
   TrimTracksStart = TRUE
   FreshReverser = TRUE
-VIEW View
-INVARIANTS RevCompLaw RevCompInvolution ReverseTwice ShapeKept AppendLaw DeleteLaw FlushLaw CutLaw
+INVARIANTS EmitHistories
 CHECK_DEADLOCK FALSE
